@@ -272,8 +272,8 @@ theorem deleteScopePreFix_spec {st : State} (h : Inv B st) (id : UUID) (sc : Sco
 /-! ### specifications -/
 
 theorem optOwnersP_kget {st : State} {id : UUID} (b : Addr) :
-    b ∈ optOwnersP (kget (·.id) st.scopeSpecs id) ↔
-      ∃ o, kget (·.id) st.scopeSpecs id = some o ∧ b ∈ o.owners := by
+    b ∈ (optOwnersP (kget (·.id) st.scopeSpecs id)).map B ↔
+      ∃ o, kget (·.id) st.scopeSpecs id = some o ∧ b ∈ o.owners.map B := by
   cases kget (·.id) st.scopeSpecs id <;> simp [optOwnersP]
 
 theorem optCSpecs_kget {st : State} {id : UUID} (b : UUID) :
@@ -282,8 +282,8 @@ theorem optCSpecs_kget {st : State} {id : UUID} (b : UUID) :
   cases kget (·.id) st.scopeSpecs id <;> simp [optCSpecs]
 
 theorem optOwnersC_kget {st : State} {id : UUID} (b : Addr) :
-    b ∈ optOwnersC (kget (·.id) st.contractSpecs id) ↔
-      ∃ o, kget (·.id) st.contractSpecs id = some o ∧ b ∈ o.owners := by
+    b ∈ (optOwnersC (kget (·.id) st.contractSpecs id)).map B ↔
+      ∃ o, kget (·.id) st.contractSpecs id = some o ∧ b ∈ o.owners.map B := by
   cases kget (·.id) st.contractSpecs id <;> simp [optOwnersC]
 
 theorem setScopeSpecification_inv {st : State} (h : Inv B st) (sp : ScopeSpec) :
@@ -297,8 +297,8 @@ theorem setScopeSpecification_inv {st : State} (h : Inv B st) (sp : ScopeSpec) :
   addrScope := h.addrScope
   specScope := h.specScope
   ownerScopeSpec := by
-    have := idxSound_kputVia (key := fun s : ScopeSpec => s.id) (tv := fun s : ScopeSpec => s.owners) (f := B)
-      h.keys.2.2.2.1 h.ownerScopeSpec sp sp.owners (optOwnersP (kget (·.id) st.scopeSpecs sp.id))
+    have := idxExact_kput (key := fun s : ScopeSpec => s.id) (vals := fun s : ScopeSpec => s.owners.map B)
+      h.keys.2.2.2.1 h.ownerScopeSpec sp (sp.owners.map B) ((optOwnersP (kget (·.id) st.scopeSpecs sp.id)).map B)
       (fun _ => Iff.rfl) (fun b => optOwnersP_kget b)
     exact this
   cspecScopeSpec := by
@@ -330,9 +330,9 @@ theorem removeScopeSpecification_inv {st st' : State} (h : Inv B st) (id : UUID)
         addrScope := h.addrScope
         specScope := h.specScope
         ownerScopeSpec := by
-          have := idxSound_kdelVia (key := fun s : ScopeSpec => s.id) (tv := fun s : ScopeSpec => s.owners) (f := B)
-            h.keys.2.2.2.1 h.ownerScopeSpec id sp hsp sp.owners (fun _ => Iff.rfl)
-          simpa [OwnerScopeSpecSound, indexScopeSpecification, optOwnersP, e] using this
+          have := idxExact_kdel (key := fun s : ScopeSpec => s.id) (vals := fun s : ScopeSpec => s.owners.map B)
+            h.keys.2.2.2.1 h.ownerScopeSpec id sp hsp (sp.owners.map B) (fun _ => Iff.rfl)
+          simpa [OwnerScopeSpecExact, indexScopeSpecification, optOwnersP, e] using this
         cspecScopeSpec := by
           have := idxExact_kdel (key := fun s : ScopeSpec => s.id) (vals := fun s : ScopeSpec => s.cspecs)
             h.keys.2.2.2.1 h.cspecScopeSpec id sp hsp sp.cspecs (fun _ => Iff.rfl)
@@ -354,8 +354,8 @@ theorem setContractSpecification_inv {st : State} (h : Inv B st) (sp : ContractS
   ownerScopeSpec := h.ownerScopeSpec
   cspecScopeSpec := h.cspecScopeSpec
   ownerCSpec := by
-    have := idxSound_kputVia (key := fun s : ContractSpec => s.id) (tv := fun s : ContractSpec => s.owners) (f := B)
-      h.keys.2.2.2.2.1 h.ownerCSpec sp sp.owners (optOwnersC (kget (·.id) st.contractSpecs sp.id))
+    have := idxExact_kput (key := fun s : ContractSpec => s.id) (vals := fun s : ContractSpec => s.owners.map B)
+      h.keys.2.2.2.2.1 h.ownerCSpec sp (sp.owners.map B) ((optOwnersC (kget (·.id) st.contractSpecs sp.id)).map B)
       (fun _ => Iff.rfl) (fun b => optOwnersC_kget b)
     exact this
   voScope := h.voScope
@@ -383,9 +383,9 @@ theorem removeContractSpecification_inv {st st' : State} (h : Inv B st) (id : UU
         ownerScopeSpec := h.ownerScopeSpec
         cspecScopeSpec := h.cspecScopeSpec
         ownerCSpec := by
-          have := idxSound_kdelVia (key := fun s : ContractSpec => s.id) (tv := fun s : ContractSpec => s.owners) (f := B)
-            h.keys.2.2.2.2.1 h.ownerCSpec id sp hsp sp.owners (fun _ => Iff.rfl)
-          simpa [OwnerCSpecSound, indexContractSpecification, optOwnersC, e] using this
+          have := idxExact_kdel (key := fun s : ContractSpec => s.id) (vals := fun s : ContractSpec => s.owners.map B)
+            h.keys.2.2.2.2.1 h.ownerCSpec id sp hsp (sp.owners.map B) (fun _ => Iff.rfl)
+          simpa [OwnerCSpecExact, indexContractSpecification, optOwnersC, e] using this
         voScope := h.voScope
         navScope := h.navScope }
 
